@@ -184,7 +184,7 @@ def expected_Store_poll : List String := ["var errs []error", "for name, sv := r
 /-- the poll's round of requests: one conditional get per known secret (an expired one is marked for removal instead), `not changed` skipped, any other error collected, a value installed only if its version differs from the one asked about -/
 theorem fact_Store_poll_as_transcribed : Facts.body_Store_poll = expected_Store_poll := by rfl
 
-def expected_Store_applyUpdates : List String := ["if len(updates) == 0 { return nil }", "s.active.Lock()", "defer s.active.Unlock()", "for name, sv := range updates { if sv == nil { if _, ok := s.active.f[name]; ok { continue } delete(s.active.m, name) s.logf(\"[store] removing expired undeclared secret %q\", name) continue } s.active.m[name].Secret = sv s.logf(\"[store] update to version %d for secret %q\", sv.Version, name) for _, w := range s.active.w[name] { w.notify() } }", "return s.flushCacheLocked()"]
+def expected_Store_applyUpdates : List String := ["if len(updates) == 0 { return nil }", "s.active.Lock()", "defer s.active.Unlock()", "for name, sv := range updates { if sv == nil { if _, ok := s.active.f[name]; ok { continue } delete(s.active.m, name) continue } s.active.m[name].Secret = sv for _, w := range s.active.w[name] { w.notify() } }", "return s.flushCacheLocked()"]
 
 /-- installing a round's results: nothing to do for an empty round; under the store's lock: an expired secret is dropped unless a handle pins it, a value replaces the old one and every watcher of the name is notified; one cache flush at the end -/
 theorem fact_Store_applyUpdates_as_transcribed : Facts.body_Store_applyUpdates = expected_Store_applyUpdates := by rfl
